@@ -9,6 +9,9 @@ the hand-written models of C03 / C04 (`Model/RawFile.lean`, `Model/RawReader.lea
   next `min n (#remaining blocks)` block ranges, and `fileBlocks` is the iteration of that step;
 * the `while` loop of `arrays` is `RawReader.submitLoop`, `arrays` is `RawReader.arrays`;
 * `_is_raw` / `concatenate` are `RawFile.concatModel`;
+* `_raw_dict_to_ak` keeps the keys of the parser's dict in their order, builds for `mdc` / `tof` / `emc` / `muc` a list of records with
+  the dict's column names in the dict's order over the unchanged offsets, for `evt_header` a record, for everything else a list of
+  words, and drops / duplicates nothing;
 * the wiring facts the translator verified (cursor reset first, gather in submission order, empty batch, argument alignment and
   list order in `concatenate`) are part of the audited theorem list.
 -/
@@ -154,6 +157,202 @@ are gathered in list (= submission) order; an empty batch is decoded when nothin
 theorem arrays_wiring :
     resetsCursorFirst = true ∧ gatherInSubmissionOrder = true ∧ emptyBatchWhenNothingRead = true ∧ concatArgsAligned = true ∧
     concatInListOrder = true := by decide
+
+/-! ### `_raw_dict_to_ak` -/
+
+/-- `zip(d.keys(), d.values())` is the list of the dict's items -/
+private theorem zip_fst_snd {α β : Type} (l : List (α × β)) : (l.map Prod.fst).zip (l.map Prod.snd) = l := by
+  induction l with
+  | nil => rfl
+  | cons a t ih => simp only [List.map_cons, List.zip_cons_cons, ih]
+
+/-- the names tested by `field_name in {…}` are exactly the four digi detectors -/
+theorem record_detectors : recordDetectors = ["emc", "mdc", "muc", "tof"] := rfl
+
+/-- `evt_header`: a record of one column per header field, names and order those of the dict -/
+theorem convertEntryPy_header (cols : List (String × List Nat)) :
+    convertEntryPy "evt_header" (.dict cols) = some (.record cols) := by
+  simp [convertEntryPy, zip_fst_snd]
+
+/-- `mdc` / `tof` / `emc` / `muc`: a list of records; the column names and their order are those of the dict, the columns are the
+dict's values, the offsets are passed through unchanged -/
+theorem convertEntryPy_detector (name : String) (h : name ∈ ["mdc", "tof", "emc", "muc"]) (offsets : List Nat)
+    (cols : List (String × List Nat)) :
+    convertEntryPy name (.offsDict offsets cols) = some (.jaggedRecords offsets cols) := by
+  simp only [List.mem_cons, List.mem_nil_iff, or_false] at h
+  rcases h with rfl | rfl | rfl | rfl <;> simp [convertEntryPy, recordDetectors, zip_fst_snd]
+
+/-- every other field: a list of words over the same offsets and data -/
+theorem convertEntryPy_other (name : String) (h1 : name ≠ "evt_header") (h2 : name ∉ ["mdc", "tof", "emc", "muc"])
+    (offsets data : List Nat) :
+    convertEntryPy name (.offsData offsets data) = some (.jaggedWords offsets data) := by
+  simp only [List.mem_cons, List.mem_nil_iff, or_false, not_or] at h2
+  simp [convertEntryPy, recordDetectors, h1, h2]
+
+/-- complete characterisation of the chain: whenever a layout is built it is one of the three above, selected by the field name only
+(pinned to the four detector names); offsets, column names, column order and data are never altered -/
+theorem convertEntryPy_some (name : String) (v : RawVal) (col : AkCol) (h : convertEntryPy name v = some col) :
+    (name = "evt_header" ∧ ∃ c, v = .dict c ∧ col = .record c) ∨
+    (name ∈ ["mdc", "tof", "emc", "muc"] ∧ ∃ o c, v = .offsDict o c ∧ col = .jaggedRecords o c) ∨
+    (name ≠ "evt_header" ∧ name ∉ ["mdc", "tof", "emc", "muc"] ∧ ∃ o d, v = .offsData o d ∧ col = .jaggedWords o d) := by
+  by_cases h1 : name = "evt_header"
+  · subst h1
+    cases v with
+    | dict c => rw [convertEntryPy_header] at h; cases h; exact Or.inl ⟨rfl, c, rfl, rfl⟩
+    | offsDict o c => simp [convertEntryPy] at h
+    | offsData o d => simp [convertEntryPy] at h
+  · by_cases h2 : name ∈ ["mdc", "tof", "emc", "muc"]
+    · cases v with
+      | offsDict o c => rw [convertEntryPy_detector name h2] at h; cases h; exact Or.inr (Or.inl ⟨h2, o, c, rfl, rfl⟩)
+      | dict c =>
+        simp only [List.mem_cons, List.mem_nil_iff, or_false] at h2
+        rcases h2 with rfl | rfl | rfl | rfl <;> simp [convertEntryPy, recordDetectors] at h
+      | offsData o d =>
+        simp only [List.mem_cons, List.mem_nil_iff, or_false] at h2
+        rcases h2 with rfl | rfl | rfl | rfl <;> simp [convertEntryPy, recordDetectors] at h
+    · cases v with
+      | offsData o d => rw [convertEntryPy_other name h1 h2] at h; cases h; exact Or.inr (Or.inr ⟨h1, h2, o, d, rfl, rfl⟩)
+      | dict c =>
+        have h2' := h2
+        simp only [List.mem_cons, List.mem_nil_iff, or_false, not_or] at h2'
+        simp [convertEntryPy, recordDetectors, h1, h2'] at h
+      | offsDict o c =>
+        have h2' := h2
+        simp only [List.mem_cons, List.mem_nil_iff, or_false, not_or] at h2'
+        simp [convertEntryPy, recordDetectors, h1, h2'] at h
+
+/-- a jagged field has `len(offsets) - 1` events -/
+theorem eventsOf_length_jagged (offsets : List Nat) (cols : List (String × List Nat)) (data : List Nat) :
+    (eventsOf (.jaggedRecords offsets cols)).length = offsets.length - 1 ∧
+    (eventsOf (.jaggedWords offsets data)).length = offsets.length - 1 := by
+  simp [eventsOf]
+
+/-- assigning a key that is not yet in the dict appends it -/
+private theorem dictSetPy_fresh {α : Type} (d : List (String × α)) (k : String) (v : α) (h : k ∉ d.map Prod.fst) :
+    dictSetPy d k v = d ++ [(k, v)] := by
+  have hany : d.any (fun p => p.1 == k) = false := by
+    rw [List.any_eq_false]
+    intro p hp heq
+    exact h (List.mem_map.mpr ⟨p, hp, by simpa using heq⟩)
+  simp only [dictSetPy, hany, Bool.false_eq_true, if_false]
+
+/-- the loop from any accumulator whose keys are disjoint from the (distinct) remaining keys -/
+private theorem loop_gen : ∀ (d : List (String × RawVal)) (acc : List (String × AkCol)),
+    (d.map Prod.fst).Nodup → (∀ k ∈ d.map Prod.fst, k ∉ acc.map Prod.fst) →
+    d.foldlM (fun contents (field_name, org_data) =>
+        (convertEntryPy field_name org_data).map (fun col => dictSetPy contents field_name col)) acc
+      = (d.mapM (fun p => (convertEntryPy p.1 p.2).map (fun c => (p.1, c)))).map (acc ++ ·)
+  | [], acc, _, _ => by simp
+  | (k, v) :: t, acc, hnd, hfresh => by
+    rw [List.map_cons, List.nodup_cons] at hnd
+    have hk : k ∉ acc.map Prod.fst := hfresh k (by simp)
+    simp only [List.foldlM_cons, List.mapM_cons]
+    cases hc : convertEntryPy k v with
+    | none => simp
+    | some col =>
+      simp only [Option.map_some, Option.bind_eq_bind, Option.bind_some, dictSetPy_fresh acc k col hk]
+      rw [loop_gen t (acc ++ [(k, col)]) hnd.2 (by
+        intro k' hk' hmem
+        rw [List.map_append, List.mem_append] at hmem
+        rcases hmem with hmem | hmem
+        · exact hfresh k' (by simp [hk']) hmem
+        · simp only [List.map_cons, List.map_nil, List.mem_singleton] at hmem
+          exact hnd.1 (hmem ▸ hk'))]
+      cases List.mapM (fun p => Option.map (fun c => (p.1, c)) (convertEntryPy p.1 p.2)) t <;> simp
+
+/-- on a dict (distinct keys) the loop of `_raw_dict_to_ak` converts the entries one by one, in the order of the dict, and fails iff some
+entry fails -/
+theorem rawDictToAkPy_eq_mapM (d : List (String × RawVal)) (hd : (d.map Prod.fst).Nodup) :
+    rawDictToAkPy d = d.mapM (fun p => (convertEntryPy p.1 p.2).map (fun c => (p.1, c))) := by
+  unfold rawDictToAkPy
+  rw [loop_gen d [] hd (by simp)]
+  cases List.mapM (fun p => Option.map (fun c => (p.1, c)) (convertEntryPy p.1 p.2)) d <;> simp
+
+/-- keys and entries of an entry-by-entry conversion -/
+private theorem mapM_keys : ∀ (d : List (String × RawVal)) (out : List (String × AkCol)),
+    d.mapM (fun p => (convertEntryPy p.1 p.2).map (fun c => (p.1, c))) = some out →
+    out.map Prod.fst = d.map Prod.fst ∧ ∀ k v, (k, v) ∈ d → ∃ col, convertEntryPy k v = some col ∧ (k, col) ∈ out
+  | [], out, h => by simp at h; subst h; simp
+  | (k, v) :: t, out, h => by
+    simp only [List.mapM_cons] at h
+    cases hc : convertEntryPy k v with
+    | none => simp [hc] at h
+    | some col =>
+      cases ht : List.mapM (fun p => Option.map (fun c => (p.1, c)) (convertEntryPy p.1 p.2)) t with
+      | none => simp [hc, ht] at h
+      | some rest =>
+        simp [hc, ht] at h
+        subst h
+        obtain ⟨h1, h2⟩ := mapM_keys t rest ht
+        refine ⟨by simp [h1], ?_⟩
+        intro k' v' hmem
+        rcases List.mem_cons.mp hmem with heq | hmem
+        · cases heq; exact ⟨col, hc, by simp⟩
+        · obtain ⟨c, hc', hin⟩ := h2 k' v' hmem
+          exact ⟨c, hc', List.mem_cons_of_mem _ hin⟩
+
+/-- the fields of the result are the keys of `raw_dict`, in the order of `raw_dict` -/
+theorem rawDictToAkPy_keys (d : List (String × RawVal)) (out : List (String × AkCol)) (hd : (d.map Prod.fst).Nodup)
+    (h : rawDictToAkPy d = some out) : out.map Prod.fst = d.map Prod.fst :=
+  (mapM_keys d out (rawDictToAkPy_eq_mapM d hd ▸ h)).1
+
+/-- nothing is dropped or duplicated: as many fields as keys, every key of `raw_dict` exactly once, nothing else -/
+theorem rawDictToAkPy_once (d : List (String × RawVal)) (out : List (String × AkCol)) (hd : (d.map Prod.fst).Nodup)
+    (h : rawDictToAkPy d = some out) :
+    out.length = d.length ∧ ∀ k, (out.map Prod.fst).count k = if k ∈ d.map Prod.fst then 1 else 0 := by
+  have hk := rawDictToAkPy_keys d out hd h
+  refine ⟨by simpa using congrArg List.length hk, fun k => ?_⟩
+  rw [hk]
+  have h1 := List.nodup_iff_count.mp hd k
+  have h2 := @List.count_pos_iff _ _ _ k (d.map Prod.fst)
+  split
+  · rename_i hm; have := h2.mpr hm; omega
+  · rename_i hm; have : ¬ 0 < List.count k (d.map Prod.fst) := fun hp => hm (h2.mp hp); omega
+
+/-- every entry of `raw_dict` is in the result under its own key, converted by the chain -/
+theorem rawDictToAkPy_entries (d : List (String × RawVal)) (out : List (String × AkCol)) (hd : (d.map Prod.fst).Nodup)
+    (h : rawDictToAkPy d = some out) (k : String) (v : RawVal) (hm : (k, v) ∈ d) :
+    ∃ col, convertEntryPy k v = some col ∧ (k, col) ∈ out :=
+  (mapM_keys d out (rawDictToAkPy_eq_mapM d hd ▸ h)).2 k v hm
+
+/-- for a record detector present in `raw_dict` the result holds, under the same key, the list of records with the dict's column names
+in the dict's order and the unchanged offsets -/
+theorem rawDictToAkPy_detector (d : List (String × RawVal)) (out : List (String × AkCol)) (hd : (d.map Prod.fst).Nodup)
+    (h : rawDictToAkPy d = some out) (name : String) (hn : name ∈ ["mdc", "tof", "emc", "muc"]) (offsets : List Nat)
+    (cols : List (String × List Nat)) (hm : (name, RawVal.offsDict offsets cols) ∈ d) :
+    (name, AkCol.jaggedRecords offsets cols) ∈ out := by
+  obtain ⟨col, hc, hin⟩ := rawDictToAkPy_entries d out hd h name _ hm
+  rw [convertEntryPy_detector name hn] at hc
+  cases hc
+  exact hin
+
+/-- the number of events of every jagged field of the result is `len(offsets) - 1` of the offsets the parser delivered for it -/
+theorem rawDictToAkPy_num_events (d : List (String × RawVal)) (out : List (String × AkCol)) (hd : (d.map Prod.fst).Nodup)
+    (h : rawDictToAkPy d = some out) (k : String) (v : RawVal) (hm : (k, v) ∈ d) (offsets : List Nat)
+    (ho : (∃ c, v = .offsDict offsets c) ∨ (∃ dd, v = .offsData offsets dd)) :
+    ∃ col, (k, col) ∈ out ∧ (eventsOf col).length = offsets.length - 1 := by
+  obtain ⟨col, hc, hin⟩ := rawDictToAkPy_entries d out hd h k v hm
+  refine ⟨col, hin, ?_⟩
+  rcases convertEntryPy_some k v col hc with ⟨_, c, hv, _⟩ | ⟨_, o, c, hv, hcol⟩ | ⟨_, _, o, dd, hv, hcol⟩
+  · rcases ho with ⟨c', h'⟩ | ⟨d', h'⟩ <;> rw [hv] at h' <;> cases h'
+  · rcases ho with ⟨c', h'⟩ | ⟨d', h'⟩ <;> rw [hv] at h' <;> cases h'
+    rw [hcol]; exact (eventsOf_length_jagged _ c []).1
+  · rcases ho with ⟨c', h'⟩ | ⟨d', h'⟩ <;> rw [hv] at h' <;> cases h'
+    rw [hcol]; exact (eventsOf_length_jagged _ [] dd).2
+
+/-- what the translator verified about the gather loop of `arrays`: `_raw_dict_to_ak` is applied to every gathered batch after the
+optional `convert_reid_to_teid`, and the per-batch arrays are concatenated by `ak.concatenate(res)` in list (= submission) order -/
+theorem gather_wiring :
+    rawDictToAkAfterReid = true ∧ batchArraysConcatenatedInListOrder = true ∧ gatherInSubmissionOrder = true := by decide
+
+/-- non-vacuity: a header, one record detector and one word field go through, keys in order; a detector whose value is not
+`(offsets, dict)` raises -/
+example : rawDictToAkPy [("evt_header", .dict [("run", [1, 1])]), ("muc", .offsDict [0, 1, 3] [("id", [7, 8, 9]), ("fec", [1, 2, 3])]),
+      ("trg", .offsData [0, 2, 2] [5, 6])] =
+    some [("evt_header", .record [("run", [1, 1])]), ("muc", .jaggedRecords [0, 1, 3] [("id", [7, 8, 9]), ("fec", [1, 2, 3])]),
+      ("trg", .jaggedWords [0, 2, 2] [5, 6])] ∧
+    rawDictToAkPy [("muc", .offsData [0] [])] = none ∧
+    eventsOf (.jaggedWords [0, 2, 2] [5, 6]) = [[("", [5, 6])], [("", [])]] := by decide
 
 /-- non-vacuity: a block of two payload words at position 0 of a 24-byte data region is consumed by one step, the next step breaks -/
 example : readBlockStepPy ([0xCC, 0xCC, 0x34, 0x12] ++ List.replicate 8 0 ++ [8, 0, 0, 0] ++ List.replicate 8 7) 24 0 = some (some 24) ∧
